@@ -364,12 +364,185 @@ fn idx_of(case: &Case, bits: Bits) -> usize {
         .unwrap_or_else(|| panic!("rt: script names a discriminant that is not declared: {bits}"))
 }
 
+trait Sink {
+    fn w(&mut self, s: &str);
+}
 struct Out {
     f: File,
 }
-impl Out {
+impl Sink for Out {
     fn w(&mut self, s: &str) {
         self.f.write_all(s.as_bytes()).expect("rt: write trace");
+    }
+}
+/// events of one thread of a parallel block, written to the trace after the threads were joined
+impl Sink for String {
+    fn w(&mut self, s: &str) {
+        self.push_str(s);
+    }
+}
+
+/// Executes one script step (a pure call, an iterator constructor, an operation on the iterator of a
+/// slot) and writes its event: everything except the result before the call, the result after it.
+#[allow(clippy::too_many_arguments)]
+fn exec_step(
+    t: &[&str],
+    slot: usize,
+    step: usize,
+    sig: &str,
+    kind: &str,
+    case: &Case,
+    proj: &Proj,
+    its: &mut Vec<Option<(Box<dyn DynIt>, bool)>>,
+    strbuf: &mut String,
+    out: &mut dyn Sink,
+) {
+    let cx = Ctx { proj, case };
+    match kind {
+        "call" => {
+            let f = t[3];
+            let pre = |a: i64, s: &str| format!("{{\"ev\":\"call\",\"case\":{},\"step\":{step},\"sig\":\"{sig}\",\"fn\":\"{f}\",\"a\":{a},\"s\":{s},", case.id);
+            macro_rules! vcall {
+                ($field:ident, $conv:expr) => {{
+                    if let Some(func) = case.$field {
+                        let b = parse_bits(t[4]);
+                        let i = idx_of(case, b);
+                        out.w(&pre(proj.model(b), "[]"));
+                        let r = guarded(|| $conv(&cx, func(i)));
+                        out.w(&format!("\"res\":{r}}}\n"));
+                    }
+                }};
+            }
+            let optval = |cx: &Ctx, r: Option<Bits>| match r {
+                None => cx.obs(&Obs::None, true),
+                Some(b) => cx.val(b),
+            };
+            match f {
+                "try_from" | "try_from_t" => {
+                    let func = if f == "try_from" { case.try_from } else { case.try_from_t };
+                    if let Some(func) = func {
+                        let b = parse_bits(t[4]);
+                        out.w(&pre(proj.model(b), "[]"));
+                        let r = guarded(|| optval(&cx, func(b)));
+                        out.w(&format!("\"res\":{r}}}\n"));
+                    }
+                }
+                "into" => vcall!(into, |cx: &Ctx, b: Bits| cx.obs(&Obs::Val(b), false)),
+                "into_t" => vcall!(into_t, |cx: &Ctx, b: Bits| cx.obs(&Obs::Val(b), false)),
+                "as_str" => vcall!(as_str, |cx: &Ctx, s: String| cx.obs(&Obs::Str(s), false)),
+                "display" => vcall!(display, |cx: &Ctx, s: String| cx.obs(&Obs::Str(s), false)),
+                "debug" => vcall!(debug, |cx: &Ctx, s: String| cx.obs(&Obs::Str(s), false)),
+                "into_str" => vcall!(into_str, |cx: &Ctx, s: String| cx.obs(&Obs::Str(s), false)),
+                "next" => vcall!(next, optval),
+                "next_back" => vcall!(next_back, optval),
+                "from_str" | "from_str_t" => {
+                    let func = if f == "from_str" { case.from_str } else { case.from_str_t };
+                    if let Some(func) = func {
+                        // every string is passed through ONE reused buffer: same address (and often the same
+                        // length) as the string of an earlier call, other bytes
+                        strbuf.clear();
+                        strbuf.extend(t[4..].iter().filter(|x| !x.is_empty()).map(|x| char::from_u32(x.parse().unwrap()).unwrap()));
+                        let s: &str = &strbuf;
+                        out.w(&pre(0, &cps(s)));
+                        let r = guarded(|| optval(&cx, func(s)));
+                        out.w(&format!("\"res\":{r}}}\n"));
+                    }
+                }
+                "min" | "max" => {
+                    let func = if f == "min" { case.min } else { case.max };
+                    if let Some(func) = func {
+                        out.w(&pre(0, "[]"));
+                        let r = guarded(|| cx.val(func()));
+                        out.w(&format!("\"res\":{r}}}\n"));
+                    }
+                }
+                "zip" => {
+                    if let Some(func) = case.zip {
+                        out.w(&pre(0, "[]"));
+                        let r = guarded(|| {
+                            let v: Vec<Obs> = func().into_iter().map(|(b, s)| Obs::Pair(b, s)).collect();
+                            if v.iter().any(|x| matches!(x, Obs::Pair(b, _) if !cx.is_variant(*b))) {
+                                "{\"k\":\"invalid\",\"raw\":\"in zip\"}".to_string()
+                            } else {
+                                cx.obs(&Obs::Seq(v), false)
+                            }
+                        });
+                        out.w(&format!("\"res\":{r}}}\n"));
+                    }
+                }
+                _ => panic!("rt: unknown call {f}"),
+            }
+        }
+        "new" => {
+            its[slot] = None;
+            let src = t[3];
+            let (a, b) = if src == "range" { (parse_bits(t[4]), parse_bits(t[5])) } else { (0, 0) };
+            let present = match src {
+                "iter" => case.iter.is_some(),
+                "range" => case.range.is_some(),
+                "names" => case.names.is_some(),
+                _ => panic!("rt: unknown iterator source {src}"),
+            };
+            if !present {
+                return;
+            }
+            let (ma, mb) = if src == "range" { (proj.model(a), proj.model(b)) } else { (0, 0) };
+            out.w(&format!("{{\"ev\":\"it_new\",\"case\":{},\"step\":{step},\"sig\":\"{sig}\",\"src\":\"{src}\",\"slot\":{slot},\"a\":{ma},\"b\":{mb},", case.id));
+            let made = catch_unwind(AssertUnwindSafe(|| match src {
+                "iter" => (case.iter.unwrap())(),
+                "names" => (case.names.unwrap())(),
+                _ => (case.range.unwrap())(idx_of(case, a), idx_of(case, b)),
+            }));
+            match made {
+                Ok(i) => {
+                    its[slot] = Some((i, src == "names"));
+                    out.w("\"res\":{\"k\":\"ok\"}}\n");
+                }
+                Err(_) => {
+                    let msg = LAST_PANIC.with(|m| m.borrow().clone());
+                    out.w(&format!("\"res\":{{\"k\":\"panic\",\"msg\":{}}}}}\n", jstr(&msg)));
+                }
+            }
+        }
+        "op" | "end" => {
+            if its[slot].is_none() {
+                return;
+            }
+            let op = t[3];
+            let n: usize = if t.len() > 4 {
+                if t[4] == "max" { usize::MAX } else { t[4].parse().unwrap() }
+            } else {
+                0
+            };
+            let ev = if kind == "op" { "it_op" } else { "it_end" };
+            out.w(&format!("{{\"ev\":\"{ev}\",\"case\":{},\"step\":{step},\"sig\":\"{sig}\",\"op\":\"{op}\",\"slot\":{slot},\"n\":{},", case.id, clamp(n)));
+            let enumval = !its[slot].as_ref().unwrap().1;
+            let r = if kind == "op" {
+                let i = &mut its[slot].as_mut().unwrap().0;
+                guarded(|| {
+                    let o = match op {
+                        "next" => i.next(),
+                        "next_back" => i.next_back(),
+                        "nth" => i.nth(n),
+                        "nth_back" => i.nth_back(n),
+                        "len" => i.len(),
+                        "size_hint" => i.size_hint(),
+                        _ => i.other(op, n),
+                    };
+                    cx.obs(&o, enumval)
+                })
+            } else {
+                let i = its[slot].take().unwrap().0;
+                guarded(|| cx.obs(&i.end(op, n), enumval))
+            };
+            let panicked = r.starts_with("{\"k\":\"panic\"");
+            out.w(&format!("\"res\":{r}}}\n"));
+            if panicked {
+                // the iterator may be in an inconsistent state after a panic
+                its[slot] = None;
+            }
+        }
+        _ => panic!("rt: unknown step kind {kind}"),
     }
 }
 
@@ -447,6 +620,10 @@ pub fn main(cases: Vec<fn() -> Case>) {
     let mut its: Vec<Option<(Box<dyn DynIt>, bool)>> = (0..SLOTS).map(|_| None).collect();
     let mut absent = false; // the current case is not in this binary
     let mut strbuf = String::with_capacity(1 << 16);
+    // parallel block being collected: lines still to come, its sig and step, (thread, line)
+    let mut par_left = 0usize;
+    let mut par_sig = String::new();
+    let mut par_prog: Vec<(usize, String)> = Vec::new();
 
     for line in flat {
         let mut t: Vec<&str> = line.split(' ').collect();
@@ -474,6 +651,7 @@ pub fn main(cases: Vec<fn() -> Case>) {
                 names.clear();
                 declared = false;
                 step = 0;
+                par_left = 0;
                 for x in its.iter_mut() {
                     *x = None;
                 }
@@ -538,152 +716,63 @@ pub fn main(cases: Vec<fn() -> Case>) {
                     ));
                     declared = true;
                 }
-                let cx = Ctx { proj: &proj, case };
-                match kind {
-                    "call" => {
-                        let f = t[3];
-                        let pre = |a: i64, s: &str| format!("{{\"ev\":\"call\",\"case\":{},\"step\":{step},\"sig\":\"{sig}\",\"fn\":\"{f}\",\"a\":{a},\"s\":{s},", case.id);
-                        macro_rules! vcall {
-                            ($field:ident, $conv:expr) => {{
-                                if let Some(func) = case.$field {
-                                    let b = parse_bits(t[4]);
-                                    let i = idx_of(case, b);
-                                    out.w(&pre(proj.model(b), "[]"));
-                                    let r = guarded(|| $conv(&cx, func(i)));
-                                    out.w(&format!("\"res\":{r}}}\n"));
-                                }
-                            }};
-                        }
-                        let optval = |cx: &Ctx, r: Option<Bits>| match r {
-                            None => cx.obs(&Obs::None, true),
-                            Some(b) => cx.val(b),
-                        };
-                        match f {
-                            "try_from" | "try_from_t" => {
-                                let func = if f == "try_from" { case.try_from } else { case.try_from_t };
-                                if let Some(func) = func {
-                                    let b = parse_bits(t[4]);
-                                    out.w(&pre(proj.model(b), "[]"));
-                                    let r = guarded(|| optval(&cx, func(b)));
-                                    out.w(&format!("\"res\":{r}}}\n"));
-                                }
-                            }
-                            "into" => vcall!(into, |cx: &Ctx, b: Bits| cx.obs(&Obs::Val(b), false)),
-                            "into_t" => vcall!(into_t, |cx: &Ctx, b: Bits| cx.obs(&Obs::Val(b), false)),
-                            "as_str" => vcall!(as_str, |cx: &Ctx, s: String| cx.obs(&Obs::Str(s), false)),
-                            "display" => vcall!(display, |cx: &Ctx, s: String| cx.obs(&Obs::Str(s), false)),
-                            "debug" => vcall!(debug, |cx: &Ctx, s: String| cx.obs(&Obs::Str(s), false)),
-                            "into_str" => vcall!(into_str, |cx: &Ctx, s: String| cx.obs(&Obs::Str(s), false)),
-                            "next" => vcall!(next, optval),
-                            "next_back" => vcall!(next_back, optval),
-                            "from_str" | "from_str_t" => {
-                                let func = if f == "from_str" { case.from_str } else { case.from_str_t };
-                                if let Some(func) = func {
-                                    // every string is passed through ONE reused buffer: same address (and often the same
-                                    // length) as the string of an earlier call, other bytes
-                                    strbuf.clear();
-                                    strbuf.extend(t[4..].iter().filter(|x| !x.is_empty()).map(|x| char::from_u32(x.parse().unwrap()).unwrap()));
-                                    let s: &str = &strbuf;
-                                    out.w(&pre(0, &cps(s)));
-                                    let r = guarded(|| optval(&cx, func(s)));
-                                    out.w(&format!("\"res\":{r}}}\n"));
-                                }
-                            }
-                            "min" | "max" => {
-                                let func = if f == "min" { case.min } else { case.max };
-                                if let Some(func) = func {
-                                    out.w(&pre(0, "[]"));
-                                    let r = guarded(|| cx.val(func()));
-                                    out.w(&format!("\"res\":{r}}}\n"));
-                                }
-                            }
-                            "zip" => {
-                                if let Some(func) = case.zip {
-                                    out.w(&pre(0, "[]"));
-                                    let r = guarded(|| {
-                                        let v: Vec<Obs> = func().into_iter().map(|(b, s)| Obs::Pair(b, s)).collect();
-                                        if v.iter().any(|x| matches!(x, Obs::Pair(b, _) if !cx.is_variant(*b))) {
-                                            "{\"k\":\"invalid\",\"raw\":\"in zip\"}".to_string()
-                                        } else {
-                                            cx.obs(&Obs::Seq(v), false)
-                                        }
-                                    });
-                                    out.w(&format!("\"res\":{r}}}\n"));
-                                }
-                            }
-                            _ => panic!("rt: unknown call {f}"),
-                        }
+                if kind == "par" {
+                    // s <sig> par <n>: the next n `p <thread> <sig> <kind> ...` lines are run by concurrent threads
+                    par_left = t[3].parse().unwrap();
+                    par_sig = sig.to_string();
+                    par_prog.clear();
+                    // the threads own their iterators; the sequential slots do not survive the block
+                    for x in its.iter_mut() {
+                        *x = None;
                     }
-                    "new" => {
-                        its[slot] = None;
-                        let src = t[3];
-                        let (a, b) = if src == "range" { (parse_bits(t[4]), parse_bits(t[5])) } else { (0, 0) };
-                        let present = match src {
-                            "iter" => case.iter.is_some(),
-                            "range" => case.range.is_some(),
-                            "names" => case.names.is_some(),
-                            _ => panic!("rt: unknown iterator source {src}"),
-                        };
-                        if !present {
-                            continue;
-                        }
-                        let (ma, mb) = if src == "range" { (proj.model(a), proj.model(b)) } else { (0, 0) };
-                        out.w(&format!("{{\"ev\":\"it_new\",\"case\":{},\"step\":{step},\"sig\":\"{sig}\",\"src\":\"{src}\",\"slot\":{slot},\"a\":{ma},\"b\":{mb},", case.id));
-                        let made = catch_unwind(AssertUnwindSafe(|| match src {
-                            "iter" => (case.iter.unwrap())(),
-                            "names" => (case.names.unwrap())(),
-                            _ => (case.range.unwrap())(idx_of(case, a), idx_of(case, b)),
-                        }));
-                        match made {
-                            Ok(i) => {
-                                its[slot] = Some((i, src == "names"));
-                                out.w("\"res\":{\"k\":\"ok\"}}\n");
-                            }
-                            Err(_) => {
-                                let msg = LAST_PANIC.with(|m| m.borrow().clone());
-                                out.w(&format!("\"res\":{{\"k\":\"panic\",\"msg\":{}}}}}\n", jstr(&msg)));
-                            }
-                        }
+                    if par_left == 0 {
+                        panic!("rt: empty par block");
                     }
-                    "op" | "end" => {
-                        if its[slot].is_none() {
-                            continue;
-                        }
-                        let op = t[3];
-                        let n: usize = if t.len() > 4 {
-                            if t[4] == "max" { usize::MAX } else { t[4].parse().unwrap() }
-                        } else {
-                            0
-                        };
-                        let ev = if kind == "op" { "it_op" } else { "it_end" };
-                        out.w(&format!("{{\"ev\":\"{ev}\",\"case\":{},\"step\":{step},\"sig\":\"{sig}\",\"op\":\"{op}\",\"slot\":{slot},\"n\":{},", case.id, clamp(n)));
-                        let enumval = !its[slot].as_ref().unwrap().1;
-                        let r = if kind == "op" {
-                            let i = &mut its[slot].as_mut().unwrap().0;
-                            guarded(|| {
-                                let o = match op {
-                                    "next" => i.next(),
-                                    "next_back" => i.next_back(),
-                                    "nth" => i.nth(n),
-                                    "nth_back" => i.nth_back(n),
-                                    "len" => i.len(),
-                                    "size_hint" => i.size_hint(),
-                                    _ => i.other(op, n),
-                                };
-                                cx.obs(&o, enumval)
+                    continue;
+                }
+                exec_step(&t, slot, step, sig, kind, case, &proj, &mut its, &mut strbuf, &mut out);
+            }
+            "p" => {
+                // p <thread> <sig> <kind> ...   one step of a thread of the parallel block announced by `s <sig> par <n>`
+                if skipping_case || par_left == 0 {
+                    continue; // the block's own step was skipped (resume after an abort)
+                }
+                par_prog.push((t[1].parse().unwrap(), line.to_string()));
+                par_left -= 1;
+                if par_left == 0 {
+                    let case = cur.expect("rt: p before case");
+                    let nthreads = par_prog.iter().map(|(k, _)| *k).max().unwrap() + 1;
+                    assert!(nthreads <= SLOTS, "rt: too many threads");
+                    out.w(&format!("{{\"ev\":\"par\",\"case\":{},\"step\":{step},\"sig\":\"{par_sig}\",\"threads\":{nthreads},", case.id));
+                    let barrier = std::sync::Barrier::new(nthreads);
+                    let bufs: Vec<String> = std::thread::scope(|sc| {
+                        let handles: Vec<_> = (0..nthreads)
+                            .map(|tid| {
+                                let prog: Vec<&String> = par_prog.iter().filter(|(k, _)| *k == tid).map(|(_, l)| l).collect();
+                                let (barrier, proj) = (&barrier, &proj);
+                                sc.spawn(move || {
+                                    // a thread owns its iterators (slot = thread number) and its string buffer
+                                    let mut its: Vec<Option<(Box<dyn DynIt>, bool)>> = (0..SLOTS).map(|_| None).collect();
+                                    let mut strbuf = String::with_capacity(1 << 12);
+                                    let mut buf = String::new();
+                                    barrier.wait();
+                                    for l in prog {
+                                        let t: Vec<&str> = l.split(' ').collect();
+                                        let tt: Vec<&str> = std::iter::once("s").chain(t[2..].iter().copied()).collect();
+                                        exec_step(&tt, tid, step, tt[1], tt[2], case, proj, &mut its, &mut strbuf, &mut buf);
+                                    }
+                                    buf
+                                })
                             })
-                        } else {
-                            let i = its[slot].take().unwrap().0;
-                            guarded(|| cx.obs(&i.end(op, n), enumval))
-                        };
-                        let panicked = r.starts_with("{\"k\":\"panic\"");
-                        out.w(&format!("\"res\":{r}}}\n"));
-                        if panicked {
-                            // the iterator may be in an inconsistent state after a panic
-                            its[slot] = None;
-                        }
+                            .collect();
+                        handles.into_iter().map(|h| h.join().expect("rt: a thread of a parallel block panicked")).collect()
+                    });
+                    // the block returned: its result, then the events of every thread (per-thread order; the threads share
+                    // nothing, so any serialisation of their events is a behaviour of the contract)
+                    out.w("\"res\":{\"k\":\"ok\"}}\n");
+                    for b in bufs {
+                        out.w(&b);
                     }
-                    _ => panic!("rt: unknown step kind {kind}"),
                 }
             }
             "" => {}
